@@ -1205,7 +1205,8 @@ def K02(p):
 def K03(p):
     for i, ln in enumerate(p.lines):
         if ln.kind in ("proto", "global") and vwidth(ln.text) <= 68:
-            ks = [k for k, x in enumerate(ln.lex) if x.k == "comma" or "asgop" in x.tags]
+            # (a comma that ends the physical line of a cut prototype is left out: a comment there is a trailing comment)
+            ks = [k for k, x in enumerate(ln.lex) if (x.k == "comma" or "asgop" in x.tags) and k + 1 < len(ln.lex)]
             if ks:
                 def ap(q, i=i, k=ks[0]):
                     q.lines[i].lex[k + 1:k + 1] = [SP(), Lx("/* c */", "cmt")]
